@@ -117,3 +117,71 @@ pub fn pk_for_s1(c: &[i16], e: &[i16], k: usize, sign: i32) -> Vec<i32> {
     };
     h.iter().map(|&x| ((x % Q) + Q) % Q).collect()
 }
+
+fn pow_mod(mut b: i64, mut e: i64, m: i64) -> i64 {
+    let mut r = 1i64;
+    b %= m;
+    while e > 0 {
+        if e & 1 == 1 {
+            r = r * b % m;
+        }
+        b = b * b % m;
+        e >>= 1;
+    }
+    r
+}
+
+/// Evaluations a(psi^(2i+1)), i < n, psi a primitive 2n-th root of unity mod q (quadratic time; harness-side, independent of
+/// the library's transforms).
+fn eval_odd_powers(a: &[i32], inverse: bool) -> Vec<i64> {
+    let _ = inverse;
+    let n = a.len();
+    let q = Q as i64;
+    let psi = pow_mod(11, (q - 1) / (2 * n as i64), q);
+    assert_eq!(pow_mod(psi, n as i64, q), q - 1, "psi is not a primitive 2n-th root");
+    let pw: Vec<i64> = (0..2 * n).scan(1i64, |s, _| { let r = *s; *s = *s * psi % q; Some(r) }).collect();
+    let mut out = vec![0i64; n];
+    for i in 0..n {
+        let mut acc = 0i64;
+        for j in 0..n {
+            let e = ((2 * i + 1) * j) % (2 * n);
+            let e = if inverse { (2 * n - e) % (2 * n) } else { e };
+            acc += (a[j] as i64).rem_euclid(q) * pw[e] % q;
+        }
+        out[i] = acc % q;
+    }
+    out
+}
+
+/// num / den in Z_q[x]/(x^n+1), or None when den is not invertible.
+pub fn negacyclic_div(num: &[i32], den: &[i32]) -> Option<Vec<i32>> {
+    let n = num.len();
+    let q = Q as i64;
+    let a = eval_odd_powers(num, false);
+    let b = eval_odd_powers(den, false);
+    if b.iter().any(|&x| x == 0) {
+        return None;
+    }
+    let quot: Vec<i32> = (0..n).map(|i| (a[i] * pow_mod(b[i], q - 2, q) % q) as i32).collect();
+    // inverse transform: c_j = n^-1 * sum_i C_i psi^(-(2i+1) j)  -- the transposed evaluation
+    let psi = pow_mod(11, (q - 1) / (2 * n as i64), q);
+    let pw: Vec<i64> = (0..2 * n).scan(1i64, |s, _| { let r = *s; *s = *s * psi % q; Some(r) }).collect();
+    let ninv = pow_mod(n as i64, q - 2, q);
+    let mut out = vec![0i32; n];
+    for j in 0..n {
+        let mut acc = 0i64;
+        for i in 0..n {
+            let e = ((2 * i + 1) * j) % (2 * n);
+            acc += quot[i] as i64 * pw[(2 * n - e) % (2 * n)] % q;
+        }
+        out[j] = (acc % q * ninv % q) as i32;
+    }
+    Some(out)
+}
+
+/// The public key h with c - s2*h = e (mod q) for an arbitrary invertible s2, or None.
+pub fn pk_for_s1_general(c: &[i16], e: &[i16], s2: &[i16]) -> Option<Vec<i32>> {
+    let d: Vec<i32> = c.iter().zip(e.iter()).map(|(&c, &e)| c as i32 - e as i32).collect();
+    let s: Vec<i32> = s2.iter().map(|&x| x as i32).collect();
+    negacyclic_div(&d, &s)
+}
